@@ -53,6 +53,74 @@ def drive_case(case, extra):
     return rec
 
 
+def _limbs(n):
+    a, m = abs(n), []
+    while a:
+        m.append(a % 10000)
+        a //= 10000
+    return {"s": (n > 0) - (n < 0), "m": m}
+
+
+def _unlimbs(j):
+    n = 0
+    for limb in reversed(j["m"]):
+        n = n * 10000 + limb
+    return n * j["s"]
+
+
+def _big_expr_to_json(e):
+    """What the solver returned for a large-value system: integers exactly (limbs in base
+    10000 beyond 31 bits), any other number as [t |-> "Inexact"], sums / products / variables."""
+    import numbers
+    import pymbolic.primitives as p
+    if isinstance(e, bool):
+        raise ser.Unserialisable(repr(e))
+    if isinstance(e, numbers.Integral):
+        n = int(e)
+        if abs(n) < 2 ** 31:
+            return {"t": "Const", "v": {"k": "int", "n": n, "d": 1}}
+        return {"t": "BigConst", "v": _limbs(n)}
+    if isinstance(e, numbers.Number):
+        return {"t": "Inexact", "text": repr(e)[:40]}
+    if isinstance(e, p.Variable):
+        return {"t": "Var", "name": e.name}
+    if isinstance(e, (p.Sum, p.Product)):
+        return {"t": type(e).__name__, "c": [_big_expr_to_json(c) for c in e.children]}
+    raise ser.Unserialisable(repr(e)[:100])
+
+
+def _with_consts(j, consts):
+    """The placeholder names K1.. replaced by the integers they stand for."""
+    if isinstance(j, dict):
+        if j.get("t") == "Var" and j["name"] in consts:
+            return {"t": "Const", "v": {"k": "int", "n": consts[j["name"]], "d": 1}}
+        return {k: _with_consts(v, consts) for k, v in j.items()}
+    if isinstance(j, list):
+        return [_with_consts(v, consts) for v in j]
+    return j
+
+
+def drive_big(case, extra):
+    """C15_Big: a system with constants beyond 2**53 through the solver."""
+    from pymbolic.algorithm import solve_affine_equations_for
+    consts = {k: _unlimbs(v) for k, v in extra["bigconsts"].items()}
+    rec = dict(case)
+    eqs = [(ser.from_json(_with_consts(q["lhs"], consts)), ser.from_json(_with_consts(q["rhs"], consts)))
+           for q in case["exprs"]]
+    try:
+        with warnings.catch_warnings():
+            warnings.simplefilter("ignore")
+            sol = solve_affine_equations_for(["x", "y"], eqs)
+        rec["res"] = {"r": "ok", "sol": [{"name": k.name, "e": _big_expr_to_json(v)} for k, v in sol.items()]}
+    except ser.Unserialisable as exc:
+        rec["res"] = {"r": "unser", "text": str(exc)[:200]}
+    except RecursionError:
+        raise
+    except Exception as exc:  # noqa: BLE001
+        rec["res"] = {"r": "err", "v": ser.exc_to_json(exc)}
+    return rec
+
+
 def kinds_in(e, acc=None):
     acc = set() if acc is None else acc
     if isinstance(e, dict):
@@ -119,6 +187,50 @@ def judge(out, recs, wd):
     classify(out, verdicts, {r["id"]: r for r in recs})
 
 
+def judge_big(out, brecs, wd):
+    shards = kit.write_shards(brecs, wd / "trace_big", "c15big", 3000)
+    verdicts, st, tr = kit.judge_shards("C15_BigJudge", "C15_BigJudge", shards)
+    out.states += st
+    out.transitions += tr
+    out.traces += len(brecs)
+    byid = {r["id"]: r for r in brecs}
+    refused = 0
+    for v in verdicts:
+        if "id" not in v:       # (the judge module extends C15_Big, which prints its constants)
+            continue
+        if v["v"] == "SKIP":
+            out.skipped += 1
+        elif v["v"] == "REFUSED":
+            refused += 1
+        else:
+            rec = byid[v["id"]]
+            known = [json.loads(k) for k in out.known]
+            hit = next((k for k in known if k.get("kind") == "solve" and k.get("clause") == v["v"]
+                        and k.get("feature") is None), None)
+            out.fail(hit or {"kind": "bigsolve", "clause": v["v"]},
+                     {"case": {k: rec[k] for k in rec if k != "res"}, "recorded": rec["res"], "fam": "big"})
+    return refused
+
+
+def big_family(out, wd):
+    """Systems with constants beyond 2**53 (C15_Big.tla), judged by exact BigNum evaluation."""
+    big = kit.run_tlc("C15_Big", "C15_Big", workers=4, coverage=False)
+    kit.require_clean(big, "C15 large-value systems (generator, judge self-test)")
+    out.add_tlc(big)
+    bp = big.printed()
+    consts = [p["bigconsts"] for p in bp if "bigconsts" in p]
+    bcases = [p for p in bp if p.get("kind") == "bigsolve"]
+    if len(consts) != 1 or not bcases:
+        raise kit.MachineryError("C15_Big printed no constants / systems")
+    for i, c in enumerate(bcases):
+        c["id"] = f"b{i}"
+    brecs = kit.drive("harness.c15", "drive_big", bcases, {"bigconsts": consts[0]}, chunk=300)
+    out.evaluations += len(brecs)
+    out.extra["large_value_systems"] = len(brecs)
+    out.extra["large_value_systems_refused"] = judge_big(out, brecs, wd)
+    out.extra["large_value_systems_solved"] = sum(1 for r in brecs if r["res"]["r"] == "ok")
+
+
 def run(tier, seed, out):
     wd = kit.fresh_workdir("C15")
     gen = kit.run_tlc("C15_Gen", f"C15_Gen_{tier}")
@@ -141,6 +253,7 @@ def run(tier, seed, out):
         "C15_Judge", "C15_Judge", recs, corrupt, wd,
         flagged=lambda v: v.get("v") not in ("OK", "SKIP", "REFUSED"))
     judge(out, recs, wd)
+    big_family(out, wd)
     for r in recs:
         out.note_case({k: r[k] for k in r if k not in ("res", "id")})
     out.samples = [{k: r[k] for k in r if k != "id"} for r in recs[:: max(1, len(recs) // 3)][:3]]
@@ -156,5 +269,11 @@ def run(tier, seed, out):
 def replay(path, out):
     wd = kit.fresh_workdir("C15")
     d = json.loads(open(path).read())
+    if d["detail"].get("fam") == "big":
+        big = kit.run_tlc("C15_Big", "C15_Big", workers=2, coverage=False)
+        consts = [p["bigconsts"] for p in big.printed() if "bigconsts" in p][0]
+        brecs = kit.drive("harness.c15", "drive_big", [d["detail"]["case"]], {"bigconsts": consts})
+        judge_big(out, brecs, wd)
+        return
     recs = kit.drive("harness.c15", "drive_case", [d["detail"]["case"]], None)
     judge(out, recs, wd)
